@@ -474,6 +474,10 @@ macro_rules! from_array {
 }
 
 pub struct BuildOutcome {
+    /// departures from std's HashMap contract seen while the physical map was built (an equal key
+    /// stored twice, a key just inserted not found): impossible unless bio-seq's Hash / Eq / Borrow
+    /// for sequences disagree, so each one is reported as a violation, not as a harness error
+    pub anomalies: Vec<String>,
     /// entry indices in the order the physical map iterates (None when the map is built inside
     /// `from_map`, i.e. the array constructor)
     pub observed_order: Option<Vec<usize>>,
@@ -490,6 +494,7 @@ fn build_and_query<A: Codec>(cfg: &Config, b: &Build) -> BuildOutcome {
 
     let mut observed_order = None;
     let mut capacity = 0;
+    let anomalies: std::cell::RefCell<Vec<String>> = std::cell::RefCell::new(Vec::new());
     let table: CodonTable<A, Amino> = match &b.ctor {
         Ctor::Array => {
             let v = pairs(&b.order);
@@ -533,8 +538,14 @@ fn build_and_query<A: Codec>(cfg: &Config, b: &Build) -> BuildOutcome {
                                 Churn::RemoveReinsert { .. } => {
                                     if let Some(i) = inserted.last() {
                                         let k = key(*i);
-                                        let v = map.remove(&k).expect("harness: reinsertion target present");
-                                        map.insert(k, v);
+                                        match map.remove(&k) {
+                                            Some(v) => {
+                                                map.insert(k, v);
+                                            }
+                                            None => anomalies.borrow_mut().push(format!(
+                                                "HashMap::remove did not find key {k} that was inserted one step earlier"
+                                            )),
+                                        }
                                     }
                                 }
                                 Churn::InsertAgain { .. } => {
@@ -555,7 +566,13 @@ fn build_and_query<A: Codec>(cfg: &Config, b: &Build) -> BuildOutcome {
                 }
                 _ => {}
             }
-            assert!(map.len() == cfg.entries.len(), "harness: physical map lost or gained entries");
+            if map.len() != cfg.entries.len() {
+                anomalies.borrow_mut().push(format!(
+                    "HashMap holds {} entries after inserting {} distinct codons (equal keys stored twice or lost)",
+                    map.len(),
+                    cfg.entries.len()
+                ));
+            }
             capacity = map.capacity();
             // the order the very object handed to from_map iterates in
             let text_to_idx: BTreeMap<&str, usize> = cfg.entries.iter().enumerate().map(|(i, e)| (e.0.as_str(), i)).collect();
@@ -584,7 +601,7 @@ fn build_and_query<A: Codec>(cfg: &Config, b: &Build) -> BuildOutcome {
             Err(p) => panic_text(p),
         });
     }
-    BuildOutcome { observed_order, answers, capacity }
+    BuildOutcome { anomalies: anomalies.into_inner(), observed_order, answers, capacity }
 }
 
 #[derive(Serialize, Deserialize, Clone, Debug)]
@@ -758,6 +775,20 @@ pub fn run(cfg: &Config) -> RunResult {
         };
         digest.feed_u64(bi as u64);
         digest.feed_u64(out.capacity as u64);
+        for a in &out.anomalies {
+            digest.feed(a.as_bytes());
+            violation_count += 1;
+            if violations.len() < 8 {
+                violations.push(Violation {
+                    class: "map-key-identity-broken".into(),
+                    build: bi,
+                    query: "constructing the HashMap<Seq, Amino> handed to from_map".into(),
+                    expected: "equal codons are one key (std HashMap contract, given consistent Hash/Eq/Borrow)".into(),
+                    got: a.clone(),
+                    observed_order: out.observed_order.clone(),
+                });
+            }
+        }
         if let Some(o) = &out.observed_order {
             for i in o {
                 digest.feed_u64(*i as u64);
